@@ -230,6 +230,41 @@ func HarnessC01T4() { c01run("T4 slices/maps/arrays", mkT4(), 2) }
 func HarnessC01T5() { c01run("T5 user pointers", mkT5(), 2) }
 func HarnessC01T6() { c01run("T6 text-unmarshalable", mkT6(), 2) }
 func HarnessC01T7() { c01run("T7 deep nesting", mkT7(), 2) }
+// maps of maps whose entries share inner maps (also with a sibling field), and exported fields
+// that dials does not manage (`dials:"-"`) but that hold references
+type c01T9 struct {
+	MM     map[string]map[string]int8
+	Labels map[string]int8
+	Keep   map[string]int8 `dials:"-"`
+	KeepP  *c01sub         `dials:"-"`
+	N      int8
+}
+
+func mkT9() func() *c01T9 {
+	share := zzverif.Choose("dShare", 3) // Labels: nil; own map; the map that is also MM["x"] and MM["z"]
+	sx, sy := zzverif.Int8("dX"), zzverif.Int8("dY")
+	keep := zzverif.Choose("dKeep", 2)
+	n := zzverif.Int8("dN")
+	return func() *c01T9 {
+		innerX := map[string]int8{"a": sx}
+		innerY := map[string]int8{"b": sy}
+		c := c01T9{MM: map[string]map[string]int8{"x": innerX, "y": innerY, "z": innerX}, N: n}
+		switch share {
+		case 1:
+			c.Labels = map[string]int8{"a": sx}
+		case 2:
+			c.Labels = innerX
+		}
+		if keep == 1 {
+			c.Keep = map[string]int8{"k": 1}
+			c.KeepP = &c01sub{V: 3, W: "w"}
+		}
+		return &c
+	}
+}
+
+func HarnessC01T9() { c01run("T9 maps of maps with shared inner maps / unmanaged exported reference fields", mkT9(), 1) }
+
 func HarnessC01T8() { c01run("T8 arrays in slices / struct keys / all-nilable pointee", mkT8(), 1) }
 func HarnessC01T8L2() { c01run("T8 arrays in slices / struct keys / all-nilable pointee", mkT8(), 2) }
 
